@@ -119,7 +119,7 @@ def gen_case(case_seed, cfg):
     r = seeds.rng(case_seed, "c09")
     mode = r.choice(MODES)
     base_mode = {"det": "ssa", "ssa": "ssa", "ssa_safe": "ssa", "volume": "volume", "delay": "delay", "lineage": "ssa"}[mode]
-    case = c06.gen_case(seeds.derive(case_seed, "base"), cfg, modes=[base_mode], delays_in_plain=False)
+    case = c06.gen_case(seeds.derive(case_seed, "base"), cfg, modes=[base_mode], delays_in_plain=False, nonuniform_p=0.0)
     case["c09_mode"] = mode
     if mode == "ssa_safe":
         case["safe"] = True
@@ -284,6 +284,9 @@ def run_case(case):
         if raw is not None and not raw.get("error"):
             viols += repeated_rules_hold(case, raw, stats)
             viols += schedule_oracles(case, raw, stats)
+            if not viols:
+                from simkit import lineage_ref
+                viols += lineage_ref.lockstep_single_cell(case, raw, stats)
         dg = hashlib.sha256(np.ascontiguousarray(raw["rows"]).tobytes()).hexdigest() if raw is not None and raw.get("rows") is not None else ""
     else:
         raw = eng.execute(case)
